@@ -31,7 +31,7 @@ def items(tier):
             out.append((sp, {"rule": "TSLACK", "max_time": F.seq_bound(sp) + 8}))
             out.append((dict(sp, order=[2, 1, 0]), {"rule": "SPT", "max_time": F.seq_bound(sp) + 8}))
     # an automatic task that belongs to a placed component
-    for sp in F.auto_component_specs():
+    for sp in F.auto_component_specs() + F.auto_in_workplace_specs() + F.same_name_task_specs():
         for aa in (False, True):
             out.append((sp, {"rule": "TSLACK", "auto_abs": aa, "max_time": F.seq_bound(sp) + 10}))
     # zero-work (milestone) tasks: not exempt - their default progress is 0 - so they must wait like any other task
